@@ -28,12 +28,17 @@ type c14Inv struct {
 	// is killed once it blocks in the middle of its output (a crashed / interrupted run); nothing is judged, the
 	// cache directory it leaves behind is the next state
 	Kill bool `json:"killed,omitempty"`
+	// Full: the standard output is /dev/full - every write to it fails; judged against the --no-cache run under the same condition
+	Full bool `json:"stdout_full,omitempty"`
 }
 
 func (i c14Inv) String() string {
 	s := "gts " + strings.Join(i.Args, " ") + " < " + i.Stdin
 	if i.Kill {
 		s = "KILLED-MID-OUTPUT: " + s
+	}
+	if i.Full {
+		s += " > /dev/full"
 	}
 	if len(i.Files) > 0 {
 		var fs []string
@@ -109,6 +114,14 @@ func c14Setup() {
 			// a long record followed by a short one (a locator valid for the first fails on the second after >32 KiB of output), and by a truncated one
 			"BIGLS": []byte(c14Record("BIGR", strings.Repeat("acgtacggtacctagcatgcaagtacgtacggtacctagca", 1100), false, 3).String() + a.String()),
 			"BIGTRUNC": []byte(c14Record("BIGR", strings.Repeat("acgtacggtacctagcatgcaagtacgtacggtacctagca", 1100), false, 3).String() + a.String()[:len(a.String())-40]),
+			// two records without join/complement-join features (gts repair handles them without panicking); the first has a cut gene
+			"P": []byte(func() string {
+				p1 := c14Record("PLN1", "acgtacggtacctagcatgcaagt", false, 0)
+				p1.Table = gts.FeatureSlice{p1.Table[0], {Key: "gene", Loc: gts.PartialRange(2, 6, gts.Partial3), Props: gts.Props{{"gene", "g1"}}}, {Key: "gene", Loc: gts.PartialRange(6, 10, gts.Partial5), Props: gts.Props{{"gene", "g1"}}}}
+				p2 := c14Record("PLN2", "ttgacgtacgatcgatcggcatgcaacc", false, 1)
+				p2.Table = p2.Table[:2]
+				return p1.String() + p2.String()
+			}()),
 			"file:g1": []byte(">g1\nttt\n"), "file:g2": []byte(">g2\nccc\n"),
 			"file:h1": []byte(b.String()), "file:h2": []byte(c14Record("HOST2", "ggggccccaaaatttt", false, 0).String()),
 			"file:q1": []byte(">q\nacg\n"), "file:q2": []byte(">q\ncat\n"),
@@ -279,6 +292,9 @@ func c14Alphabet(thorough bool) []c14Inv {
 	}
 	add([]string{"AFA"}, "reverse")
 	add([]string{"AFA"}, "extract", "2..5")
+	add([]string{"P"}, "repair")
+	add([]string{"P"}, "repair", "-F", "fasta")
+	add([]string{"P"}, "clear")
 	// outputs above 32 KiB
 	add([]string{"BIG", "BIGFA"}, "reverse")
 	add([]string{"BIG"}, "complement", "-F", "fasta")
@@ -359,7 +375,7 @@ func c14RefPrior(inv c14Inv, prior []byte) clidrv.Result {
 		return r
 	}
 	c14RefMu.Unlock()
-	r, _ := clidrv.RunWithFiles(c14NoCache(c14Args(inv.Args)), c14Inputs[inv.Stdin], clidrv.State{}, c14WithPrior(inv, prior))
+	r, _ := clidrv.RunOpts(c14NoCache(c14Args(inv.Args)), c14Inputs[inv.Stdin], clidrv.State{}, c14WithPrior(inv, prior), inv.Full)
 	c14RefMu.Lock()
 	c14Refs[key] = r
 	c14RefMu.Unlock()
@@ -416,7 +432,7 @@ func c14StepInner(inv c14Inv, st clidrv.State, outs map[string][]byte, hist []c1
 	if ref.Exit == -1 {
 		return st, outs, false, "harness", "cannot run the gts binary: " + ref.Stderr
 	}
-	res, ns := clidrv.RunWithFiles(c14Args(inv.Args), c14Inputs[inv.Stdin], st, c14WithPrior(inv, prior))
+	res, ns := clidrv.RunOpts(c14Args(inv.Args), c14Inputs[inv.Stdin], st, c14WithPrior(inv, prior), inv.Full)
 	nouts := outs
 	if n := c14OutName(inv); n != "" && res.HasOut {
 		nouts = map[string][]byte{}
@@ -468,7 +484,7 @@ func init() {
 			}
 			thorough := r.Tier == "thorough"
 			sigma := c14Alphabet(thorough)
-			r.Rule = fmt.Sprintf("explicit-state search on the gts binary built from the tree: state = content of the cache directory (initially empty), alphabet = %d invocations (all 19 cached subcommands, each boolean option toggled, valued options at two values, secondary files at two contents, stdin among {record A, record B, multi-record, garbage, truncated record, FASTA}, stdout and -o outputs); level 1: every invocation on the empty cache (cold) and repeated (warm); level 2: every ordered pair; deeper levels breadth-first inside command families, de-duplicated on the directory state; killed runs: invocations with more than 4 KiB of output interrupted (SIGKILL) while blocked on their output, leaving a real unfinalised entry, in histories [kill k; j; j|k] and [j; kill k; k; j|k]; oracle on every transition: stdout, -o file and exit status equal the --no-cache run; distinct key = (state, invocation); non-trivial = state non-empty", len(sigma))
+			r.Rule = fmt.Sprintf("explicit-state search on the gts binary built from the tree: state = content of the cache directory (initially empty), alphabet = %d invocations (all 19 cached subcommands, each boolean option toggled, valued options at two values, secondary files at two contents, stdin among {record A, record B, multi-record, garbage, truncated record, FASTA}, stdout and -o outputs); level 1: every invocation on the empty cache (cold) and repeated (warm); level 2: every ordered pair; deeper levels breadth-first inside command families, de-duplicated on the directory state; killed runs: invocations with more than 4 KiB of output interrupted (SIGKILL) while blocked on their output, leaving a real unfinalised entry, in histories [kill k; j; j|k] and [j; kill k; k; j|k]; unwritable output: every cached subcommand with its standard output on /dev/full in histories [full i; i; i], [full i; full i; i], [i; full i; i]; oracle on every transition: stdout, -o file and exit status equal the --no-cache run (under the same output condition); distinct key = (state, invocation); non-trivial = state non-empty", len(sigma))
 			r.Extra["alphabet"] = len(sigma)
 			// references + vacuity guard
 			r.ParallelFor(len(sigma), func(i int) { c14Ref(sigma[i]) })
@@ -640,6 +656,40 @@ func init() {
 					if ok3 {
 						judge(big[j], n3)
 						judge(big[k], n3)
+					}
+				})
+				complete = complete && done
+			}
+			// output that cannot be written (standard output is /dev/full): [full(i); i], [i; full(i); i], [full(i); full(i); i] for a
+			// menu of invocations covering every cached subcommand
+			if complete {
+				var menu []c14Inv
+				seenCmd := map[string]bool{}
+				for _, inv := range sigma {
+					if (inv.Stdin == "A" || inv.Stdin == "M") && !seenCmd[inv.Args[0]] && c14OutName(inv) == "" && len(inv.Files) == 0 {
+						seenCmd[inv.Args[0]] = true
+						menu = append(menu, inv)
+					}
+				}
+				menu = append(menu, c14Inv{Args: []string{"repair"}, Stdin: "P"}, c14Inv{Args: []string{"sort"}, Stdin: "P"}, c14Inv{Args: []string{"reverse"}, Stdin: "BIG"}, c14Inv{Args: []string{"repair"}, Stdin: "BIG"}, c14Inv{Args: []string{"clear"}, Stdin: "M"}, c14Inv{Args: []string{"repair"}, Stdin: "M"})
+				r.Extra["full_stdout_menu"] = len(menu)
+				done := r.ParallelFor(len(menu), func(i int) {
+					inv := menu[i]
+					fv := inv
+					fv.Full = true
+					empty := node{clidrv.State{}, nil, nil}
+					if n1, ok := judge(fv, empty); ok {
+						if n2, ok := judge(inv, n1); ok {
+							judge(inv, n2)
+						}
+						if n2, ok := judge(fv, n1); ok {
+							judge(inv, n2)
+						}
+					}
+					if n1, ok := judge(inv, empty); ok {
+						if n2, ok := judge(fv, n1); ok {
+							judge(inv, n2)
+						}
 					}
 				})
 				complete = complete && done
